@@ -103,6 +103,7 @@ type Run struct {
 	Cancel    context.CancelFunc
 	ErrShape  int                 // what accompanies an injected error: 0 nil result, 1 a usable non-nil result, 2 a typed nil pointer
 	ErrText   int                 // text of injected errors: 0 unique sentinel, 1 "", 2 blanks, 3 sentinel + newline
+	ErrType   int                 // dynamic type of injected errors: 0 pointer to struct, 1 struct value with a slice field (not comparable), 2 slice type (not comparable), 3 wrapped with %w
 	Yield     func(method string) // scheduler hook (C06); nil otherwise
 	Errors    []*SimError
 	NoSites   bool
@@ -118,6 +119,7 @@ func (t *Run) Reset() {
 	t.Errors = nil
 	t.ErrText = 0
 	t.ErrShape = 0
+	t.ErrType = 0
 }
 
 // View is a node seen through a run: the xpath.Entry handed to the machine.
@@ -373,10 +375,28 @@ func (v *View) enter(method, arg string) error {
 		}
 		tr.Errors = append(tr.Errors, e)
 		err = e
+		// same text, another dynamic type: nothing says that an error is a pointer, or comparable with ==
+		switch tr.ErrType {
+		case 1:
+			err = simErrorValue{e, []string{method}}
+		case 2:
+			err = simErrorList{e}
+		case 3:
+			err = fmt.Errorf("%w", e)
+		}
 	}
 	tr.Calls = append(tr.Calls, c)
 	return err
 }
+
+type simErrorValue struct {
+	*SimError
+	Path []string
+}
+
+type simErrorList []*SimError
+
+func (l simErrorList) Error() string { return l[0].Error() }
 
 // natural failure (not found etc.): also a tree-reported error with a sentinel.
 func (v *View) natural(method, why string) error {
